@@ -390,3 +390,40 @@ Proof.
     + cbn [rch]. apply (SU_child _ s Sl). apply in_or_app. right. now left.
     + apply (SU_child _ x Sl). apply in_or_app. right. now right.
 Qed.
+
+(* ------------------------------------------------------------------ *)
+(* frame on identities: a step only adds freshly allocated identities; together with WFw
+   of the result this is [WFx] *)
+Definition Fr (w w' : world) : Prop :=
+  next w <= next w' /\ forall m, In m (all_ids w') -> In m (all_ids w) \/ next w <= m.
+Definition WFx (w w' : world) : Prop := WFw w' /\ Fr w w'.
+
+Lemma WFx_refl w : WFw w -> WFx w w.
+Proof. intros H. split; [assumption|]. split; [lia|]. intros m Hm. now left. Qed.
+
+Lemma WFx_trans a b c : WFx a b -> WFx b c -> WFx a c.
+Proof.
+  intros (_ & L1 & F1) (H & L2 & F2). split; [assumption|]. split; [lia|]. intros m Hm.
+  destruct (F2 m Hm) as [X|X]; [|right; lia]. now apply F1.
+Qed.
+
+Lemma WFx_put w ti t t' nx :
+  WFw w -> get_tree w ti = Some t -> WF t' -> next w <= nx ->
+  (forall m, In m (ids (forest_of t')) -> In m (ids (forest_of t)) \/ (next w <= m < nx)) ->
+  WFx w (W (upd_nth ti (fun _ => t') (trees w)) nx).
+Proof.
+  intros H G Ht' Hnx F. split; [now apply (WFw_put w ti t)|]. split; [exact Hnx|].
+  unfold get_tree in G. destruct (nth_error_split _ _ G) as (a & b & E & <-). destruct w as [ts nw]. cbn [trees next] in *. subst ts.
+  rewrite upd_nth_split. intros m Hm. rewrite all_ids_split in Hm. rewrite all_ids_split.
+  apply in_app_or in Hm. destruct Hm as [Hm|Hm]; [left; apply in_or_app; now left|].
+  apply in_app_or in Hm. destruct Hm as [Hm|Hm]; [|left; apply in_or_app; right; apply in_or_app; now right].
+  destruct (F m Hm) as [X|X]; [left; apply in_or_app; right; apply in_or_app; now left|right; lia].
+Qed.
+
+Lemma WFx_bump w k : WFw w -> WFx w (bump w k).
+Proof. intros H. split; [now apply WFw_bump|]. split; [cbn; lia|]. intros m Hm. now left. Qed.
+
+Lemma WFx_W w nx : WFw w -> next w <= nx -> WFx w (W (trees w) nx).
+Proof.
+  intros H L. replace nx with (next w + (nx - next w)) by lia. apply (WFx_bump w (nx - next w) H).
+Qed.
